@@ -85,7 +85,7 @@ TECHNIQUE = ("Lean 4 proof (inductive invariants over small-step interleaving se
              "slot, stack-of-frames invariant for re-entrancy, list-identity invariant for the pool) + "
              "schedule-forced differential correspondence with the real optimizers + AST facts")
 LEAN_MODULES = ["CotengraVerif.Props.C16", "CotengraVerif.Props.C16Nest", "CotengraVerif.Props.C16Pool",
-                "CotengraVerif.Props.C16Iface", "CotengraVerif.Props.C16Facts"]
+                "CotengraVerif.Props.C16Iface", "CotengraVerif.Props.C16Shared", "CotengraVerif.Props.C16Facts"]
 THEOREMS = [
     "Cotengra.C16.per_thread_isolation",
     "Cotengra.C16.per_thread_isolation_from",
@@ -118,6 +118,11 @@ THEOREMS = [
     "Cotengra.C16.iface_path_isolation",
     "Cotengra.C16.iface_key_collision_counterexample",
     "Cotengra.C16.iface_key_is_full_tuple",
+    # object identity of the sub-optimizer (Props/C16Shared.lean)
+    "Cotengra.C16.fresh_suboptimizer_isolation",
+    "Cotengra.C16.sstep_inv",
+    "Cotengra.C16.shared_suboptimizer_counterexample",
+    "Cotengra.C16.suboptimizer_fresh_per_call",
 ]
 TRUSTED = [
     "Lean 4.33 kernel; axioms ⊆ {propext, Classical.choice, Quot.sound}",
@@ -221,6 +226,16 @@ def net_of_tree(tree):
 # ------------------------------------------------------------------------------------------
 
 class Controller:
+    """Runs exactly one thread at a time, from yield point to yield point.
+
+    A thread that is given the turn and does not come back within `block_timeout` seconds is
+    taken to be blocked outside the controller (e.g. on a lock held by a parked thread): it is set
+    aside until it arrives at a yield point, and another thread gets the turn.  From then on the
+    run is no longer strictly serialised (`degraded` is set: such a run is judged by the oracle
+    only, never compared with the model); it can still not hang."""
+
+    block_timeout = 3.0
+
     def __init__(self, n, chooser):
         self.cv = threading.Condition()
         self.turn = None
@@ -230,6 +245,8 @@ class Controller:
         self.enabled_log = []
         self.seg_labels = []       # what ended each segment of `effective` (name of the yield point / "end")
         self.free = False          # stress mode: yields are no-ops
+        self.blocked = set()       # threads that did not come back from their turn
+        self.degraded = None
 
     def start(self, i):
         if self.free:
@@ -242,8 +259,11 @@ class Controller:
         if self.free:
             return
         with self.cv:
-            self.seg_labels.append(label)
-            self.turn = None
+            if self.turn == i:
+                self.seg_labels.append(label)
+                self.turn = None
+            # else: this thread was set aside as blocked and has been released meanwhile
+            self.blocked.discard(i)
             self.cv.notify_all()
             while self.turn != i:
                 self.cv.wait()
@@ -251,7 +271,8 @@ class Controller:
     def finish(self, i):
         with self.cv:
             self.done[i] = True
-            if not self.free:
+            self.blocked.discard(i)
+            if not self.free and self.turn == i:
                 self.seg_labels.append("end")
                 self.turn = None
             self.cv.notify_all()
@@ -259,17 +280,32 @@ class Controller:
     def drive(self, limit=10000):
         for _ in range(limit):
             with self.cv:
-                enabled = [i for i, d in enumerate(self.done) if not d]
-                if not enabled:
+                if all(self.done):
                     return True
+                enabled = [i for i, d in enumerate(self.done) if not d and i not in self.blocked]
+                if not enabled:
+                    # every unfinished thread is blocked: wait for one of them to be released
+                    if not self.cv.wait_for(lambda: all(self.done) or any(
+                            (not d) and i not in self.blocked for i, d in enumerate(self.done)), timeout=10):
+                        self.degraded = "deadlock: every unfinished thread is blocked outside the controller"
+                        return False
+                    continue
                 i = self.chooser(enabled, len(self.effective))
                 self.enabled_log.append(list(enabled))
                 self.effective.append(i)
                 self.turn = i
                 self.cv.notify_all()
-                while self.turn is not None:
-                    self.cv.wait()
+                if not self.cv.wait_for(lambda: self.turn is None, timeout=self.block_timeout):
+                    self.blocked.add(i)
+                    self.degraded = (f"thread {i} did not reach a yield point within {self.block_timeout}s "
+                                     "(blocked outside the controller)")
+                    _BLOCKING["seen"] += 1
+                    self.seg_labels.append("blocked")
+                    self.turn = None
         return False
+
+
+_BLOCKING = {"seen": 0}
 
 
 _tls = threading.local()
@@ -338,6 +374,8 @@ def instrument_reusable(ropt):
     ropt._verif_instrumented = True
     ropt._verif_scores = {}      # thread index -> [score of each sub-search]
     ropt._verif_nsearch = {}
+    ropt._verif_subopt_ids = []  # id() of the object every `_get_suboptimizer()` call returned
+    ropt._verif_subopt_keep = []
     ropt._suboptimizers = YieldDict(ropt._suboptimizers)
     ropt._cache = CacheProxy(ropt._cache)
     orig_hash = ropt.hash_query
@@ -361,6 +399,10 @@ def instrument_reusable(ropt):
         nd = _node()
         if nd is not None:
             nd["searched"] = True
+        ropt._verif_subopt_ids.append(id(opt))
+        ropt._verif_subopt_keep.append(opt)          # keeps the ids unique
+        if getattr(opt, "_verif_search_wrapped", False):
+            return opt                                # the same object handed out again
         orig_search = opt.search
 
         def search(*a, **kw):
@@ -369,6 +411,10 @@ def instrument_reusable(ropt):
             return tree
 
         opt.search = search
+        try:
+            opt._verif_search_wrapped = True
+        except Exception:
+            pass
         return opt
 
     def _run_optimizer(*a, **kw):
@@ -489,10 +535,29 @@ def model_mode(mode):
 #  one run under a controller
 # ------------------------------------------------------------------------------------------
 
+_TRACED_FILES = (os.path.join("cotengra", "reusable.py"), os.path.join("cotengra", "presets.py"))
+
+
+def _line_tracer(frame, event, arg):
+    """`sys.settrace` hook (instr='trace'): every source line of a *method* defined in
+    cotengra/reusable.py or cotengra/presets.py is a yield point -- no attribute of the optimizers
+    is named, and the granularity is finer than the shared-access yield points."""
+    co = frame.f_code
+    if not co.co_filename.endswith(_TRACED_FILES) or "self" not in co.co_varnames[:1]:
+        return None
+
+    def local(frame, event, arg):
+        if event == "line":
+            _yield("line")
+        return local
+
+    return local
+
+
 def run_threads(mode, programs, chooser=None, free=False, use_call=False, instr="private"):
     """programs: per thread, list of pool ids. Returns observation dict.
     Raises InstrumentationError (only) when instr='private' cannot be installed."""
-    opt = make_optimizer(mode, instr)
+    opt = make_optimizer(mode, "none" if instr == "trace" else instr)
     n = len(programs)
     ctl = Controller(n, chooser or (lambda en, k: en[0]))
     ctl.free = free
@@ -505,6 +570,8 @@ def run_threads(mode, programs, chooser=None, free=False, use_call=False, instr=
         _tls.ctl, _tls.idx = ctl, i
         try:
             ctl.start(i)
+            if instr == "trace":
+                sys.settrace(_line_tracer)
             for j, nid in enumerate(programs[i]):
                 net = POOL[nid]
                 node = {"nid": nid, "searched": False, "score": None, "obj_key": None}
@@ -526,6 +593,7 @@ def run_threads(mode, programs, chooser=None, free=False, use_call=False, instr=
                 if j + 1 < len(programs[i]):
                     ctl.yield_(i)
         finally:
+            sys.settrace(None)
             _tls.ctl = None
             _tls.qstack = None
             ctl.finish(i)
@@ -544,6 +612,8 @@ def run_threads(mode, programs, chooser=None, free=False, use_call=False, instr=
     obs["seg_labels"] = list(ctl.seg_labels)
     obs["nodes"] = nodes
     obs["_opt"] = opt
+    if ctl.degraded:
+        obs["blocked"] = ctl.degraded
     if instr != "private":
         return obs
     # per-thread sub-search counts, scores and cached keys (private attributes: best effort)
@@ -679,6 +749,43 @@ def model_compare_labelled(drv, mode, programs, obs, allsc):
     for o, k, v in resp["cached"]:
         if (o, k) in probe and probe[(o, k)] != v:
             return f"c16.nrun: object {o} key {k}: cached model {v} vs implementation {probe[(o, k)]}"
+    if mode.startswith("reusable"):
+        return model_compare_identity(drv, mode, programs, obs, allsc)
+    return None
+
+
+def model_compare_identity(drv, mode, programs, obs, allsc):
+    """The same run against the heap model (Model/ReuseShared.lean, policy `fresh`): besides the
+    answers and the labelled segments, *which object* every `_get_suboptimizer()` call handed out
+    (first-occurrence numbering of the identities, in the order of the calls)."""
+    opt = obs.get("_opt")
+    ids = list(getattr(opt, "_verif_subopt_ids", []) or [])
+    mm = model_mode(mode)
+    trials = [[[allsc.index(s) if s in allsc else 0] for s in per] + [[0]] * 4 for per in obs["scores"]]
+    resp = drv.call("c16.srun", policy="fresh", overwrite=mm["overwrite"], cache_only=mm["cache_only"],
+                    queues=[[[nid, KEY[nid], bool(HARD[nid])] for nid in p] for p in programs], trials=trials,
+                    segments=[[t, l] for t, l in zip(obs["schedule"], obs["seg_labels"])])
+    if "error" in resp:
+        return "c16.srun driver error: " + resp["error"]
+    if resp["mismatch"] is not None:
+        m = resp["mismatch"]
+        return (f"c16.srun: segment {m['segment']} ended at {m['expected']!r} in the implementation, the heap "
+                f"model's thread comes to {m['got']!r}")
+    for i, th in enumerate(resp["threads"]):
+        if th["left"] != 0 or th["pc"] != "idle":
+            return f"c16.srun thread {i}: model has not finished its program"
+        if th["results"] != obs["results"][i]:
+            return f"c16.srun thread {i}: results model {th['results']} vs implementation {obs['results'][i]}"
+        if th["nsearch"] != obs["nsearch"][i]:
+            return f"c16.srun thread {i}: sub-searches model {th['nsearch']} vs implementation {obs['nsearch'][i]}"
+
+    def canon(xs):
+        seen = {}
+        return [seen.setdefault(x, len(seen)) for x in xs]
+
+    if canon(resp["refs"]) != canon(ids):
+        return (f"c16.srun: sub-optimizer objects handed out (first-occurrence numbering): model {canon(resp['refs'])} "
+                f"vs implementation {canon(ids)} -- `_get_suboptimizer()` does not return a new object per call")
     return None
 
 
@@ -698,7 +805,7 @@ def check_schedule(ctx, drv, mode, programs, chooser, tag, instr="private"):
     Never raises on behalf of the real code: a missing private attribute is recorded as a broken
     correspondence (once per message) and the run falls back to the public yield points."""
     if instr == "private" and _DEGRADED.get(mode.split("-")[0]):
-        instr = "public" if mode in PUBLIC_MODES else "none"
+        instr = "public" if mode in PUBLIC_MODES else "trace"
     try:
         obs = run_threads(mode, programs, chooser, instr=instr)
     except InstrumentationError as e:
@@ -707,7 +814,7 @@ def check_schedule(ctx, drv, mode, programs, chooser, tag, instr="private"):
             _DEGRADED[fam] = str(e)
             ctx.corr_broken("instrumentation of the private yield points is not possible: " + str(e),
                             {"mode": mode})
-        instr = "public" if mode in PUBLIC_MODES else "none"
+        instr = "public" if mode in PUBLIC_MODES else "trace"
         obs = run_threads(mode, programs, chooser, instr=instr)
     pre = "E" if instr == "private" else "P"
     ctx.count(f"{pre}:{tag}:{mode}")
@@ -730,10 +837,12 @@ def check_schedule(ctx, drv, mode, programs, chooser, tag, instr="private"):
         ctx.violation(signature(mode, programs, bad), {"case": case, "failed": [bad[0], bad[1]]},
                       f"{mode}: {bad[0]} {bad[1]}")
         return obs, False
-    if obs.get("degraded"):
+    if obs.get("blocked"):
+        ctx.count("runs_with_a_thread_blocked_outside_the_controller")
+    elif obs.get("degraded"):
         if not _DEGRADED.get("obs:" + mode.split("-")[0]):
             _DEGRADED["obs:" + mode.split("-")[0]] = obs["degraded"]
-            ctx.corr_broken("private state could not be observed: " + obs["degraded"], case)
+            ctx.corr_broken("the run could not be compared with the model: " + obs["degraded"], case)
     elif drv is not None and instr == "private":
         try:
             diff = model_compare(drv, mode, programs, obs)
@@ -743,6 +852,44 @@ def check_schedule(ctx, drv, mode, programs, chooser, tag, instr="private"):
         if diff:
             ctx.corr_broken("c16.run: " + diff, case)
     return obs, True
+
+
+def window_choosers(programs, counts):
+    """Schedules of the form: thread `first` runs `k` of its segments, then every other thread runs
+    its whole program, then `first` finishes -- i.e. the others' queries fall entirely between two
+    consecutive yield points of `first`; for every thread and every k."""
+    out = []
+    for first in range(len(programs)):
+        for k in range(counts[first] + 1):
+            def chooser(enabled, pos, first=first, k=k, st={"mine": 0}):
+                if pos == 0:
+                    st["mine"] = 0
+                if st["mine"] < k and first in enabled:
+                    st["mine"] += 1
+                    return first
+                for t in enabled:
+                    if t != first:
+                        return t
+                return enabled[0]
+            out.append(chooser)
+    return out
+
+
+def check_windows(ctx, drv, mode, programs, instr, tag="window"):
+    """all window schedules of `programs` (see window_choosers); returns the number of runs"""
+    obs0, ok = check_schedule(ctx, drv, mode, programs, None, tag, instr=instr)
+    if not ok:
+        return 1
+    counts = [obs0["schedule"].count(t) for t in range(len(programs))]
+    runs = 1
+    for ch in window_choosers(programs, counts):
+        if ctx.time_left() < 40:
+            break
+        _, ok = check_schedule(ctx, drv if instr == "private" else None, mode, programs, ch, tag, instr=instr)
+        runs += 1
+        if not ok:
+            break
+    return runs
 
 
 def explore_all(ctx, drv, mode, programs, max_runs, tag="exhaustive", instr="private"):
@@ -1083,8 +1230,39 @@ def extract_iface_facts():
             "cache_keyed_by_it": bool(keyed and key_from)}
 
 
+def extract_subopt_facts():
+    """Every `_get_suboptimizer` of a subclass of `ReusableOptimizer` (hyper.py, path_basic.py) is
+    a single `return <ClassName>(...)`: a new object per call."""
+    out = []
+    for rel in (os.path.join("hyperoptimizers", "hyper.py"), os.path.join("pathfinders", "path_basic.py")):
+        mod = ast.parse(open(os.path.join(common.REPO, "cotengra", rel)).read())
+        for c in [n for n in mod.body if isinstance(n, ast.ClassDef)]:
+            bases = [b.id if isinstance(b, ast.Name) else getattr(b, "attr", "") for b in c.bases]
+            if "ReusableOptimizer" not in bases:
+                continue
+            fn = next((n for n in c.body if isinstance(n, ast.FunctionDef) and n.name == "_get_suboptimizer"), None)
+            ok = False
+            if fn is not None:
+                body = [st for st in fn.body if not (isinstance(st, ast.Expr) and isinstance(st.value, ast.Constant))]
+                if len(body) == 1 and isinstance(body[0], ast.Return) and isinstance(body[0].value, ast.Call):
+                    f = body[0].value.func
+                    name = f.id if isinstance(f, ast.Name) else (f.attr if isinstance(f, ast.Attribute) else "")
+                    ok = bool(name) and name[0].isupper()
+            out.append([c.name, bool(ok)])
+    ru = ast.parse(open(os.path.join(common.REPO, "cotengra", "reusable.py")).read())
+    rc = next(n for n in ru.body if isinstance(n, ast.ClassDef) and n.name == "ReusableOptimizer")
+    runs = [n for n in rc.body if isinstance(n, ast.FunctionDef) and n.name == "_run_optimizer"]
+    calls = sum(1 for n in ast.walk(runs[-1]) if isinstance(n, ast.Call) and isinstance(n.func, ast.Attribute)
+                and n.func.attr == "_get_suboptimizer") if runs else 0
+    return {"classes": sorted(out), "calls_in_run_optimizer": calls}
+
+
 def gen_facts():
     f = extract_facts()
+    try:
+        fs = extract_subopt_facts()
+    except Exception as e:  # noqa
+        fs = {"classes": [["<extraction failed>", False]], "calls_in_run_optimizer": 0}
     try:
         fi = extract_iface_facts()
     except Exception as e:  # noqa
@@ -1139,6 +1317,12 @@ def futuresRebinders : List String := {lst(ff["rebinders"])}
 
 /-- methods that reach `_futures` other than through `self` -/
 def futuresForeignUses : List String := {lst(ff["foreign_uses"])}
+
+/-- subclass of `ReusableOptimizer` -> its `_get_suboptimizer` is a single `return <Class>(...)` -/
+def suboptFreshPerCall : List (String × Bool) := [{", ".join('("%s", %s)' % (c, "true" if b else "false") for c, b in fs["classes"])}]
+
+/-- number of `self._get_suboptimizer()` calls in `ReusableOptimizer._run_optimizer` -/
+def suboptCallsPerRun : Nat := {fs["calls_in_run_optimizer"]}
 
 /-- `interface.hash_contraction` has a single `return` of a tuple display -/
 def ifaceKeyReturnsTuple : Bool := {"true" if fi["returns_tuple"] else "false"}
@@ -1270,12 +1454,21 @@ def run(ctx, drv):
         ctx.notes["facts_extracted"] = extract_facts()
         ctx.notes["facts_extracted"]["futures"] = extract_futures_facts()
         ctx.notes["facts_extracted"]["iface_key"] = extract_iface_facts()
+        ctx.notes["facts_extracted"]["suboptimizer"] = extract_subopt_facts()
     except Exception as e:
         ctx.obligation("fact extraction from reusable.py / presets.py / path_basic.py", False, repr(e))
 
+    # warm-up (lazy imports, pools, compiled helpers): the controller takes a thread that does not
+    # reach a yield point within `Controller.block_timeout` for blocked
+    for mode in MODES:
+        try:
+            run_threads(mode, [[3, 0]], None, free=True, instr="none")
+        except Exception:
+            pass
+
     # E1: every interleaving of small programs
     ex = [("reusable-improved", [[4, 3, 4]]), ("reusable-improved", [[3, 4, 3]]), ("reusable-no", [[3], [3]]), ("reusable-no", [[3], [4]]), ("reusable-yes", [[3], [3]]),
-          ("reusable-cacheonly", [[3], [3]]), ("reusable-rgreedy", [[4], [4]]),
+          ("reusable-cacheonly", [[3], [3]]), ("reusable-rgreedy", [[4], [4]]), ("reusable-rgreedy", [[3], [4]]),
           ("auto-cached", [[3], [3]]), ("auto-plain", [[3], [4]]), ("reusable-no", [[3], [7]]),
           ("reusable-improved", [[3], [3]])]
     if not quick:
@@ -1290,6 +1483,19 @@ def run(ctx, drv):
         all_done = all_done and complete
     ctx.notes["exhaustive_interleavings"] = exnotes
     ctx.exhaustive = False  # the property's space (all programs) is infinite; see notes for the finite parts
+
+    # W: window schedules -- another thread's whole query between two consecutive yield points of
+    # this one -- for every mode: at the shared-access yield points (with the model), and at every
+    # source line of the methods of reusable.py / presets.py (`sys.settrace`, no private name)
+    wn = 0
+    for mode in MODES:
+        for programs in ([[3], [4]], [[4], [3]]) if not mode.startswith("auto") else ([[3], [4]],):
+            wn += check_windows(ctx, drv, mode, programs, "private")
+    tmodes = ("reusable-no", "reusable-rgreedy", "auto-cached") if quick else MODES
+    for mode in tmodes:
+        for programs in ([[3], [4]],) if quick else ([[3], [4]], [[4], [3]], [[3, 4], [4]]):
+            wn += check_windows(ctx, None, mode, programs, "trace", tag="line-window")
+    ctx.notes["window_schedules"] = wn
 
     # P: the same kind of exploration through *public* hooks only (a user-supplied Objective whose
     # calls are the yield points; one of them sits between "search recorded" and "tree fetched")
@@ -1386,6 +1592,21 @@ def search(ctx):
         sig["found_by"] = "search"
         return ctx.violation(sig, {"case": case, "failed": [bad[0], bad[1]]},
                              f"failing input found by search: {mode}: {bad[0]} {bad[1]}")
+
+    # 0. window schedules at source-line granularity (sys.settrace: no private name), every mode
+    for mode in MODES:
+        for programs in ([[3], [4]], [[4], [3]]):
+            if ctx.time_left() < 10:
+                break
+            obs0 = run_threads(mode, programs, None, instr="trace")
+            counts = [obs0["schedule"].count(t) for t in range(2)]
+            for ch in [None] + window_choosers(programs, counts):
+                obs = obs0 if ch is None else run_threads(mode, programs, ch, instr="trace")
+                bad = oracle(programs, obs, mode)
+                if bad is not None:
+                    case = {"kind": "schedule", "mode": mode, "programs": programs,
+                            "schedule": obs["schedule"], "instr": "trace"}
+                    return bool(report(mode, programs, case, bad))
 
     # 1. every public-hook interleaving of two threads asking different uncached contractions
     for mode in PUBLIC_MODES:
